@@ -1,0 +1,20 @@
+//go:build verif
+
+package sftp
+
+// Add-only instrumentation for the /verif correspondence harness: path cleaning and error mapping.
+
+// VerifCleanPathWithBase exposes cleanPathWithBase.
+func VerifCleanPathWithBase(base, p string) string { return cleanPathWithBase(base, p) }
+
+// VerifToLocalPath exposes Server.toLocalPath for a given working directory (as WithServerWorkingDirectory stores it).
+func VerifToLocalPath(workDir, p string) string {
+	s := &Server{workDir: workDir}
+	return s.toLocalPath(p)
+}
+
+// VerifStatusCode exposes the status code statusFromError assigns to err.
+func VerifStatusCode(err error) uint32 { return statusFromError(1, err).StatusError.Code }
+
+// VerifNormalise exposes normaliseError applied to a status with the given code.
+func VerifNormalise(code uint32) error { return normaliseError(&StatusError{Code: code}) }
